@@ -191,6 +191,7 @@ def _mask_selection(expr: ast.AST, flag: str):
 
 
 def _r3(ck: Checker, prog: Program):
+    _PROG[0] = prog
     # ---- individual curves
     f = prog.func("postprocessing._plot_individual_hvsr_curves")
     _check_masked_plot(ck, f, flag="valid", mask="valid_window_boolean_mask",
@@ -337,139 +338,152 @@ def _r3(ck: Checker, prog: Program):
     ck.floor("C20.R3", n_found, 9, "helper calls in plot_single_panel_hvsr_curves")
 
 
-def _check_masked_plot(ck: Checker, f, flag: str, mask: str, what: str, rows, x: Optional[str]):
-    # the selection variable
-    sel = None
-    for st in own_nodes(f.node):
-        if isinstance(st, ast.Assign) and len(st.targets) == 1 and isinstance(st.targets[0], ast.Name):
-            r = _mask_selection(st.value, flag)
-            if r is not None:
-                sel = (st.targets[0].id, r[0], r[1], st)
+def _check_masked_plot(ck: Checker, f, flag: str, mask: str, what: str, rows, x: Optional[str], prog: Program = None):
+    """What is drawn per member h (the object itself or each per-azimuth member): rows of h.<rows>[sel] with
+    sel = h.<mask> if <flag> else ~h.<mask> (values resolved through temporaries)."""
+    from ..resolve import Resolver, canon
+    from ..model import parent_of
     key = f"{what}: selection by {mask}"
-    if sel is None:
-        ck.violation("C20.R3", f.qualname, key,
-                     f"no selection of the form `<h>.{mask} if {flag} else ~<h>.{mask}` found", loc=f.loc())
-        return
-    selname, obj, attr, st = sel
-    if attr != mask:
-        ck.violation("C20.R3", f.qualname, key, f"{what} are selected with `{attr}` instead of `{mask}`", loc=f.loc(st))
-        return
-    if not reaching(f).only_param(flag, st):
-        ck.violation("C20.R3", f.qualname, key, f"`{flag}` is rebound before the selection", loc=f.loc(st))
-        return
-    # rows drawn: every row attribute is subscripted by the selection on the same object
-    used = []
-    for sub in own_nodes(f.node):
-        if isinstance(sub, ast.Subscript) and isinstance(sub.slice, ast.Name) and sub.slice.id == selname \
-                and isinstance(sub.value, ast.Attribute) and isinstance(sub.value.value, ast.Name) \
-                and sub.value.value.id == obj:
-            used.append(sub.value.attr)
-    missing = [r for r in rows if r not in used]
-    extra = [u for u in used if u not in rows]
+    prog = prog or _PROG[0]
+    R = Resolver(prog, f, inline=False)
     plots = [c for c in calls_in(f.node, "plot") if isinstance(c.func, ast.Attribute)]
-    if missing or extra or len(plots) != 1:
-        ck.violation("C20.R3", f.qualname, key,
-                     f"rows selected by the mask: {used}; expected {list(rows)}; plot calls: {len(plots)}", loc=f.loc(st))
-        return
+    if len(plots) != 1:
+        raise AnalysisError(f"{f.qualname}: expected one plot call, found {len(plots)}")
     p = plots[0]
+    pst = p
+    while not isinstance(pst, ast.stmt):
+        pst = parent_of(pst)
+    # the member loop: the outermost enclosing for loop with a plain name target
+    loops = []
+    q = parent_of(pst)
+    while q is not None and q is not f.node:
+        if isinstance(q, ast.For):
+            loops.append(q)
+        q = parent_of(q)
+    if not loops or not isinstance(loops[-1].target, ast.Name):
+        raise AnalysisError(f"{f.qualname}: loop over the members not found")
+    member = loops[-1]
+    H = member.target.id
+    if not reaching(f).only_param(flag, pst):
+        ck.violation("C20.R3", f.qualname, key, f"`{flag}` is rebound before the selection", loc=f.loc(pst))
+        return
+    sel_src = f"({H}.{mask} if {flag} else ~{H}.{mask})"
+    alt_src = f"({H}.{mask} if {flag} else np.logical_not({H}.{mask}))"
+    args = [a for a in p.args if not isinstance(a, ast.Starred)]
+
+    def val(e, at):
+        return canon(R.value(e, at))
+
+    def want(src):
+        return [canon(R.expect(src.replace("SEL", s_))) for s_ in (sel_src, alt_src)]
+    problems = []
     if x is not None:
-        x0 = p.args[0] if p.args else None
-        if not (isinstance(x0, ast.Attribute) and x0.attr == x and isinstance(x0.value, ast.Name) and x0.value.id == obj):
-            ck.violation("C20.R3", f.qualname, key, f"x data `{unparse(x0)}` is not {obj}.{x}", loc=f.loc(p))
-            return
-        y0 = p.args[1] if len(p.args) > 1 else None
-        srcs, stmts = value_sources(f, y0, p) if y0 is not None else (set(), [])
-        ok_y = any(isinstance(s, ast.For) and any(isinstance(q, ast.Subscript) and isinstance(q.slice, ast.Name)
-                                                  and q.slice.id == selname for q in ast.walk(s.iter)) for s in stmts)
-        if not ok_y:
-            ck.violation("C20.R3", f.qualname, key, f"y data `{unparse(y0)}` is not a row of {obj}.{rows[0]}[{selname}]", loc=f.loc(p))
-            return
+        if len(args) < 2:
+            raise AnalysisError(f"{f.qualname}: plot(x, y) expected")
+        if val(args[0], pst) != canon(R.expect(f"{H}.{x}")):
+            problems.append(f"x data `{unparse(args[0])}` is not {H}.{x}")
+        # y: the loop variable of a loop over h.<rows[0]>[sel]
+        inner = loops[0] if len(loops) > 1 else None
+        if inner is None or not (isinstance(inner.target, ast.Name) and isinstance(args[1], ast.Name) and args[1].id == inner.target.id):
+            problems.append(f"y data `{unparse(args[1])}` is not a row of {H}.{rows[0]}[selection]")
+        else:
+            got = val(inner.iter, inner)
+            if got not in want(f"{H}.{rows[0]}[SEL]"):
+                problems.append(f"the rows drawn are those of {got}; expected {H}.{rows[0]}[{H}.{mask} if {flag} else ~{H}.{mask}]")
     else:
-        # markers: plot(frequency, amplitude) in the order (_main_peak_frq, _main_peak_amp)
-        a = [q for q in p.args if not isinstance(q, ast.Starred)][:2]
-        order = []
-        for q in a:
-            srcs, stmts = value_sources(f, q, p)
-            found = None
-            for s in stmts:
-                if isinstance(s, ast.Assign) and isinstance(s.targets[0], (ast.Tuple, ast.Name)):
-                    tg = s.targets[0]
-                    if isinstance(tg, ast.Tuple) and isinstance(s.value, ast.Tuple) and isinstance(q, ast.Name):
-                        for e, v in zip(tg.elts, s.value.elts):
-                            if isinstance(e, ast.Name) and e.id == q.id and isinstance(v, ast.Subscript) and isinstance(v.value, ast.Attribute):
-                                found = v.value.attr
-                    elif isinstance(tg, ast.Name) and isinstance(q, ast.Name) and tg.id == q.id \
-                            and isinstance(s.value, ast.Subscript) and isinstance(s.value.value, ast.Attribute):
-                        found = s.value.value.attr
-            if found is None and isinstance(q, ast.Subscript) and isinstance(q.value, ast.Attribute):
-                found = q.value.attr
-            order.append(found)
-        if order != list(rows):
-            ck.violation("C20.R3", f.qualname, key, f"markers are drawn as {order}, expected {list(rows)}", loc=f.loc(p))
-            return
-    # the object iterated is the caller's object or its per-azimuth members
-    ck.ok("C20.R3", f.qualname, key, detail=f"`{selname}` = {obj}.{mask} / ~{obj}.{mask}; rows {list(rows)}")
+        if len(args) < 2:
+            raise AnalysisError(f"{f.qualname}: plot(frequency, amplitude) expected")
+        for a, r_ in zip(args[:2], rows):
+            got = val(a, pst)
+            if got not in want(f"{H}.{r_}[SEL]"):
+                problems.append(f"markers use {got}; expected {H}.{r_}[{H}.{mask} if {flag} else ~{H}.{mask}]")
+    if problems:
+        ck.violation("C20.R3", f.qualname, key, "; ".join(problems), loc=f.loc(p))
+    else:
+        ck.ok("C20.R3", f.qualname, key, detail=f"per member `{H}`: rows {list(rows)} selected by {H}.{mask} / its complement")
+
+
+_PROG = [None]
 
 
 # --------------------------------------------------------------------------- R4
 def _r4(ck: Checker, prog: Program):
+    """Summary table as a decision table over the fn distribution: 3 rows x 4 cells of the object's accessors."""
+    from ..pathtable import PathTable, literals, holds
     f = prog.func("postprocessing.summarize_hvsr_statistics")
     rd = reaching(f)
-    tables = []
-    for st in own_nodes(f.node):
-        if isinstance(st, ast.Assign) and isinstance(st.targets[0], ast.Name) and st.targets[0].id == "data" \
-                and isinstance(st.value, ast.Call) and st.value.args and isinstance(st.value.args[0], (ast.List, ast.Tuple)):
-            tables.append((st, st.value.args[0]))
-    ck.floor("C20.R4", len(tables), 2, "`data = np.array([[...],[...],[...]])` tables")
-    T = Translator()
+    R = lambda n: sp.Symbol(n, real=True)   # noqa: E731
+    hv, dist = R("hvsr"), R("distribution_fn")
     H = sp.Function
-    hv = T.sym("hvsr")
-    dist = T.sym("distribution_fn")
 
     def acc(name, *a):
         return H(name)(hv, *a)
-    for st, rowsnode in tables:
-        from ..model import parent_of
-        p = parent_of(st)
-        branch = None
-        while p is not None:
-            if isinstance(p, ast.If) and isinstance(p.test, ast.Compare) and isinstance(p.test.comparators[0], ast.Constant):
-                branch = p.test.comparators[0].value
-                break
-            p = parent_of(p)
-        rows = rowsnode.elts
-        if len(rows) != 3 or any(not isinstance(r, (ast.List, ast.Tuple)) or len(r.elts) != 4 for r in rows):
-            raise AnalysisError(f"{f.qualname}: summary table is not 3 rows x 4 columns")
-        if not rd.only_param("hvsr", st) or not rd.only_param("distribution_fn", st):
-            ck.violation("C20.R4", f.qualname, f"table[{branch}]", "`hvsr` or `distribution_fn` is rebound before the table is built",
-                         loc=f.loc(st))
+
+    def norm(v):
+        """call(attr_NAME(obj), args) -> NAME(obj, args); keyword wrappers dropped."""
+        def is_call(e):
+            return getattr(getattr(e, "func", None), "__name__", "") == "call" and getattr(getattr(e.args[0], "func", None), "__name__", "").startswith("attr_")
+
+        def fix(e):
+            a0 = e.args[0]
+            rest = [x.args[0] if getattr(getattr(x, "func", None), "__name__", "").startswith("kw_") else x for x in e.args[1:]]
+            return H(a0.func.__name__[5:])(a0.args[0], *rest)
+        for _ in range(4):
+            v = v.replace(is_call, fix)
+        return v
+    pt = PathTable(prog, f.module, unroll=True, structured=True)
+    leaves = pt.leaves(f.node.body)
+    n_tables = 0
+    for branch in ("lognormal", "normal"):
+        assign = {dist: sp.Symbol(f"'{branch}'")}
+        cands = []
+        for l in leaves:
+            vals = [holds(x, assign) for x in literals(l) if x.has(dist)]
+            if any(v is None for v in vals):
+                raise AnalysisError(f"{f.qualname}: a condition on distribution_fn could not be evaluated")
+            if all(vals) and l.exit != "raise":
+                cands.append(l)
+        if not cands:
+            ck.violation("C20.R4", f.qualname, f"table[{branch}]", f"no table is produced for distribution_fn = '{branch}'", loc=f.loc())
             continue
-        vals = [[T.tr(e) for e in r.elts] for r in rows]
-        # calls are translated as method(recv, args..., kwargs...) : normalise expected forms
-        frq = [acc("mean_fn_frequency", dist), acc("std_fn_frequency", dist),
-               acc("nth_std_fn_frequency", sp.Integer(-1), dist), acc("nth_std_fn_frequency", sp.Integer(1), dist)]
-        amp = [acc("mean_fn_amplitude", dist), acc("std_fn_amplitude", dist),
-               acc("nth_std_fn_amplitude", sp.Integer(-1), dist), acc("nth_std_fn_amplitude", sp.Integer(1), dist)]
-        names = ["median/mean", "standard deviation", "-1 std", "+1 std"]
-        bad = []
-        for j in range(4):
-            if not equal(vals[0][j], frq[j]):
-                bad.append(f"frequency row, {names[j]}: `{unparse(rows[0].elts[j])}`")
-            if not equal(vals[2][j], amp[j]):
-                bad.append(f"amplitude row, {names[j]}: `{unparse(rows[2].elts[j])}`")
-        if branch == "lognormal":
-            per = [1 / frq[0], frq[1], 1 / frq[2], 1 / frq[3]]
+        for l in cands[:1]:
+            table = None
+            for nm, v in l.env.items():
+                v = norm(v) if hasattr(v, "replace") else v
+                if isinstance(v, sp.Tuple) and len(v) == 3 and all(isinstance(r_, sp.Tuple) and len(r_) == 4 for r_ in v):
+                    table = v
+            if table is None:
+                raise AnalysisError(f"{f.qualname}: summary table is not 3 rows x 4 columns")
+            n_tables += 1
+            frq = [acc("mean_fn_frequency", dist), acc("std_fn_frequency", dist),
+                   acc("nth_std_fn_frequency", sp.Integer(-1), dist), acc("nth_std_fn_frequency", sp.Integer(1), dist)]
+            amp = [acc("mean_fn_amplitude", dist), acc("std_fn_amplitude", dist),
+                   acc("nth_std_fn_amplitude", sp.Integer(-1), dist), acc("nth_std_fn_amplitude", sp.Integer(1), dist)]
+            names = ["median/mean", "standard deviation", "-1 std", "+1 std"]
+            bad = []
             for j in range(4):
-                if not equal(vals[1][j], per[j]):
-                    bad.append(f"period row, {names[j]}: `{unparse(rows[1].elts[j])}` is not {per[j]}")
-        else:
-            for j in range(4):
-                if vals[1][j] is not sp.nan:
-                    bad.append(f"period row for the normal distribution must be NaN, found `{unparse(rows[1].elts[j])}`")
-        if bad:
-            ck.violation("C20.R4", f.qualname, f"table[{branch}]", "; ".join(bad[:4]), loc=f.loc(st))
-        else:
-            ck.ok("C20.R4", f.qualname, f"table[{branch}]", detail="12 cells equal the object's accessors (period row reciprocal)")
+                if not equal(table[0][j], frq[j]):
+                    bad.append(f"frequency row, {names[j]}: `{table[0][j]}`")
+                if not equal(table[2][j], amp[j]):
+                    bad.append(f"amplitude row, {names[j]}: `{table[2][j]}`")
+            if branch == "lognormal":
+                per = [1 / frq[0], frq[1], 1 / frq[2], 1 / frq[3]]
+                for j in range(4):
+                    if not equal(table[1][j], per[j]):
+                        bad.append(f"period row, {names[j]}: `{table[1][j]}` is not {per[j]}")
+            else:
+                for j in range(4):
+                    if table[1][j] is not sp.nan:
+                        bad.append(f"period row for the normal distribution must be NaN, found `{table[1][j]}`")
+            if bad:
+                ck.violation("C20.R4", f.qualname, f"table[{branch}]", "; ".join(bad[:4]), loc=f.loc())
+            else:
+                ck.ok("C20.R4", f.qualname, f"table[{branch}]", detail="12 cells equal the object's accessors (period row reciprocal)")
+    ck.floor("C20.R4", n_tables, 2, "summary tables (lognormal, normal)")
+    for p_ in ("hvsr", "distribution_fn"):
+        uses = [n for n in own_nodes(f.node) if isinstance(n, ast.Name) and n.id == p_ and isinstance(n.ctx, ast.Load)]
+        if any(not rd.only_param(p_, u) for u in uses):
+            ck.violation("C20.R4", f.qualname, f"{p_} rebound", f"`{p_}` is rebound before the table is built", loc=f.loc())
     # mean-curve peak caption uses the object's accessor with distribution_mc
     caps = [c for c in calls_in(f.node, "mean_curve_peak")]
     for c in caps:
